@@ -476,6 +476,23 @@ theorem flattening_step_eq (r tol : K) (htr : tol ≤ r) :
   simp [circleFlatteningStep, geom, min_eq_left htr]
 end sagitta
 
+/-- the laws are satisfiable together with the hypotheses: a piecewise-linear stand-in for `cos` on
+`[0, 3]` (`cos x = 1 − 2x/3`, `acos x = 3(1 − x)/2`, `π = 3`), radius 2, tolerance 1/2 -/
+example : (2:ℚ) * (1 - (1 - 2 * (1/4) / 3)) ≤ 1/2 := by
+  let _ : Transc ℚ := ⟨id, id, id, fun x => 1 - 2 * x / 3, id, fun x => 3 * (1 - x) / 2, fun a _ => a, fun a _ => a, id, id, id, id,
+    fun _ => 0, fun a _ => a, 0, 3, fun _ => false, fun _ => true⟩
+  have h := sagitta_within_tolerance (K := ℚ) 2 (1/2) (1/4) (by norm_num) (by norm_num) (by norm_num)
+    (fun x y _ hxy _ => by show 1 - 2 * y / 3 ≤ 1 - 2 * x / 3; linarith)
+    (fun x h0 h1 => by
+      refine ⟨?_, ?_, ?_⟩
+      · show 1 - 2 * (3 * (1 - x) / 2) / 3 = x; ring
+      · show 0 ≤ 3 * (1 - x) / 2; linarith
+      · show 3 * (1 - x) / 2 ≤ 3; linarith)
+    (by norm_num) (by show (1/4 : ℚ) ≤ 3 * (1 - (2 - 1/2) / 2) / 2; norm_num)
+  exact h
+
+example : (3:ℚ) / (2:ℚ) ^ 3 ≤ 1/2 := chord_angle_le_step 3 (1/2) 6 3 (by norm_num) (by norm_num) (by norm_num)
+
 /-! ### the arc fan (`tessellate_arc`, C05's model): every new vertex is on the circle -/
 
 section arc
